@@ -119,6 +119,64 @@ def related_names_registered(ck, par, adds, rule):
     ck.floor(rule, "scheduling arms without a related name", n, 3)
 
 
+def stop_tests(prog, apply_worker):
+    """Where the apply worker compares a patch index with the shared earliest-broken index in order to stop: a guard inside the loop
+    whose one edge leaves it, or the predicate of a `take_while` over the iterator the loop draws from (evaluated before every item,
+    like a test at the top of the loop).  Each record says whether the worker stops exactly when index > earliest."""
+    out = []
+    swap = {"Gt": "Lt", "Lt": "Gt", "Ge": "Le", "Le": "Ge"}
+    for bb, t in apply_worker.terms():
+        if t["k"] != "switch" or t["dty"] != "bool":
+            continue
+        e, neg = guards.switch_cond(apply_worker, bb)
+        if not (isinstance(e, tuple) and e[0] == "bin" and e[1] in swap):
+            continue
+        a, b = e[2], e[3]
+        la, lb = df.is_call(a, "::load"), df.is_call(b, "::load")
+        if not (la or lb):
+            continue
+        op = swap[e[1]] if la else e[1]        # normalised to  index OP load
+        f, tr = guards.bool_edges(apply_worker, bb)
+        if neg:
+            f, tr = tr, f
+        loop = cfg.innermost_loop_of(apply_worker, bb)
+        if not loop:
+            out.append({"kind": "outside", "where": apply_worker.where(t), "good": False, "op": op, "detail": ""})
+            continue
+        exits_on_true = tr not in loop[1]
+        exits_on_false = f not in loop[1]
+        good = (op == "Gt" and exits_on_true and not exits_on_false) or (op == "Le" and exits_on_false and not exits_on_true)
+        out.append({"kind": "guard in the loop", "where": apply_worker.where(t), "good": good, "op": op,
+                    "detail": "exit on %s" % ("true" if exits_on_true else "false")})
+    # take_while(|(index, _)| index <= earliest.load())
+    loops_tw = [il for il in pt.iterator_loops(apply_worker) if "TakeWhile<" in il["iter_ty"]]
+    for bb, t in apply_worker.calls():
+        if not (callee_of(t).get("rpath") or "").endswith("::take_while") or len(t["args"]) != 2:
+            continue
+        ce = df.operand_expr(apply_worker, t["args"][1])
+        cl = prog.fns.get(ce[1]) if isinstance(ce, tuple) and ce and ce[0] == "closure" else None
+        if cl is None:
+            continue
+        rets = df.alternatives(cl, df.local_expr(cl, 0)) or []
+        for r in rets:
+            negd = False
+            while isinstance(r, tuple) and r[0] == "un" and r[1] == "Not":
+                negd, r = not negd, r[2]
+            if not (isinstance(r, tuple) and r[0] == "bin" and r[1] in swap):
+                continue
+            la, lb = df.is_call(r[2], "::load"), df.is_call(r[3], "::load")
+            if not (la or lb):
+                continue
+            op = swap[r[1]] if la else r[1]
+            if negd:
+                op = {"Gt": "Le", "Le": "Gt", "Lt": "Ge", "Ge": "Lt"}[op]
+            # the predicate says "keep going": good iff it is  index <= earliest, and the worker loop iterates this adaptor
+            good = op == "Le" and bool(loops_tw)
+            out.append({"kind": "take_while predicate", "where": cl.where(), "good": good, "op": {"Le": "Gt", "Lt": "Ge", "Gt": "Le", "Ge": "Lt"}[op],
+                        "detail": "take_while keeps items while index %s earliest" % op})
+    return out
+
+
 def run(ck):
     prog, cg = ck.prog, ck.cg
     par = ck.anchor(A["par"])
@@ -214,37 +272,15 @@ def run(ck):
 
     # ---- R4 strict comparison ------------------------------------------------------------------------------------------
     found = 0
-    for bb, t in apply_worker.terms():
-        if t["k"] != "switch" or t["dty"] != "bool":
-            continue
-        e, neg = guards.switch_cond(apply_worker, bb)
-        if not (isinstance(e, tuple) and e[0] == "bin" and e[1] in ("Gt", "Lt", "Ge", "Le")):
-            continue
-        a, b = e[2], e[3]
-        la = df.is_call(a, "::load")
-        lb = df.is_call(b, "::load")
-        if not (la or lb):
-            continue
+    for st in stop_tests(ck.prog, apply_worker):
         found += 1
-        op = e[1]
-        # normalise to  index OP load
-        if la:
-            op = {"Gt": "Lt", "Lt": "Gt", "Ge": "Le", "Le": "Ge"}[op]
-        f, tr = guards.bool_edges(apply_worker, bb)
-        if neg:
-            f, tr = tr, f
-        loop = cfg.innermost_loop_of(apply_worker, bb)
-        if not loop:
-            ck.violate("C06-R4", "stop test outside the worker loop", "comparison with the shared index is not inside the loop", apply_worker.where(t))
+        if st["kind"] == "outside":
+            ck.violate("C06-R4", "stop test outside the worker loop", "comparison with the shared index is not inside the loop", st["where"])
             continue
-        exits_on_true = tr not in loop[1]
-        exits_on_false = f not in loop[1]
-        # stop exactly when index > earliest
-        good = (op == "Gt" and exits_on_true and not exits_on_false) or (op == "Le" and exits_on_false and not exits_on_true)
-        ck.require(good, "C06-R4", "worker stops only when strictly past the earliest broken patch",
-                   "the worker loop stops on `index %s earliest` (exit on %s): file patches of the failing patch itself would be skipped "
-                   "(incomplete rejects) or later patches applied" % (op, "true" if exits_on_true else "false"), apply_worker.where(t),
-                   ok_detail="exit iff index > load(earliest)")
+        ck.require(st["good"], "C06-R4", "worker stops only when strictly past the earliest broken patch",
+                   "the worker loop stops on `index %s earliest` (%s): file patches of the failing patch itself would be skipped "
+                   "(incomplete rejects) or later patches applied" % (st["op"], st["detail"]), st["where"],
+                   ok_detail="exit iff index > load(earliest) (%s)" % st["kind"])
     ck.floor("C06-R4", "stop tests in apply_worker", found, 1)
 
     # ---- R5 / R6 -------------------------------------------------------------------------------------------------------
